@@ -111,7 +111,7 @@ def diff_run(run, G, scen_args, prefix, nontrivial, label, known_key=None, tier=
         reported_known = set()
         unknown = []
         for ln, idx, l, m in fails:
-            key = known_key(l) if known_key else None
+            key = (known_key(l, m) if getattr(known_key, "wants_model", False) else known_key(l)) if known_key else None
             hit = next((k for k in known if key is not None and k["key"] == key), None)
             if hit:
                 if hit["key"] not in reported_known:
@@ -446,8 +446,8 @@ def run_reply(run, cfg, G):
     def search():
         diff_run(run, G, ["reply"], "reply", reply_nontrivial, "reply-search", tier="thorough", seed_offset=1, record=False)
     finish_corr(run, G, [search])
-    run.cov["rule"] = ("30 compiled receivers = 6 parameter types (unit, serde_json::Value, strict struct, borrowed-str struct, all-optional struct, mixed struct) x 5 error types (derive-generated: unit + struct variants, "
-                       "borrowed fields, renamed/optional fields, empty enum, bool/Value fields); per receiver 700 (thorough 8000) type-directed reply objects: success with right / wrong / missing / extra / positional parameters "
+    run.cov["rule"] = ("36 compiled receivers = 6 parameter types (unit, serde_json::Value, strict struct, borrowed-str struct, all-optional struct, mixed struct) x 6 error types (derive-generated: unit + struct variants, "
+                       "borrowed fields, renamed/optional fields, empty enum, bool/Value fields, renamed variants); per receiver 700 (thorough 8000) type-directed reply objects: success with right / wrong / missing / extra / positional parameters "
                        "and continues of every kind; declared errors with right / wrong / missing / extra / absent / null / {} parameters; the six standard errors likewise; undeclared names; non-string error members; "
                        "well-formed successes that also carry an error member; shuffled member order, occasional duplicates; the class reported by receive_reply is compared with the model and judged by the Lean oracle; "
                        "non-trivial = any class observed; distinct = distinct case lines")
@@ -456,6 +456,8 @@ def run_reply(run, cfg, G):
 def run_envelope(run, cfg, G):
     for pre in ("calldec", "enc", "noparams"):
         diff_run(run, G, ["envelope"], pre, env_nontrivial, "envelope-" + pre, known_key=env_known_key)
+    # decode direction of derived errors (any member order, renamed variants and fields): the receivers of C04's corpus
+    diff_run(run, G, ["reply"], "reply", reply_nontrivial, "envelope-errdec")
     def search():
         for pre in ("calldec", "enc"):
             diff_run(run, G, ["envelope"], pre, env_nontrivial, "envelope-search-" + pre, tier="thorough", seed_offset=1, record=False, known_key=env_known_key)
@@ -463,7 +465,7 @@ def run_envelope(run, cfg, G):
     run.cov["rule"] = ("calldec: 4 method types (owned / borrowed adjacently tagged enums, varlink_service::Method, a plain struct) x all 8 subsets of present flags x their values x ALL permutations of the (<= 5) members, "
                        "with unknown members, wrong / missing / null / {} parameters, unknown or non-string method, non-boolean and repeated flags, decoded through receive_call; "
                        "enc: calls (flags in all combinations), derived and standard errors, replies with/without parameters/continues sent through the connection and compared byte for byte with the model's encoder; "
-                       "noparams: absent / null / {} parameters for GetInfo, a standard error, a derived field-less error and a unit-output reply; non-trivial = accepted / refused per kind; distinct = distinct case lines")
+                       "noparams: absent / null / {} parameters for GetInfo, a standard error, a derived field-less error and a unit-output reply; errdec: the reply corpus of C04 (derived errors decoded from shuffled members, with renamed variants and fields); non-trivial = accepted / refused per kind; distinct = distinct case lines")
 
 
 # ------------------------------------------------------------------------------------ idl (C13, C14)
@@ -618,13 +620,21 @@ def alias_nontrivial(inp, impl):
         ks.append("replies-in-separate-reads")
     if any(int(x) > 1 for x in g):
         ks.append("several-replies-in-one-read")
+    fr = inp.split(" F ")[1].split(" G ")[0].split() if " F " in inp else []
     return ks
 
 
-def alias_known_key(line):
+def alias_known_key(line, model_line):
+    """the listed finding is the behaviour the model of the pinned code predicts (an item overwritten in place by a
+    later read): a failing case the model does not predict is something else"""
     if line.startswith("alias "):
-        return "held-item-overwritten"
+        model, h, _ = parse_model(model_line)
+        if " ".join((model or "").split()) == " ".join(split_case(line)[1].split()):
+            return "held-item-overwritten"
     return None
+
+
+alias_known_key.wants_model = True
 
 
 def run_alias(run, cfg, G):
